@@ -491,3 +491,28 @@ def build_shell(d):
     cc.nt = d.get('nt', max(4 * d['n2'] + 5, 16))
     cc.ni_num_cores = d.get('ni_num_cores', 1)
     return cc
+
+
+def structure_matrices(rng, which, want):
+    """(K, other, desc) of a generated PanelAssembly ('assembly') or StiffPanelBay ('bay'); want = 'kG0' | 'kM'.
+    Restrained skins (ss / clamped flags) and compressive Nxx so that K is PD on its active set and the reference load
+    destabilising."""
+    if which == 'assembly':
+        ad = assembly_desc(rng, npan=int(rng.integers(2, 4)), mmax=4)
+        for d in ad['panels']:
+            d['flags'] = flags(rng, style=str(rng.choice(['ss', 'clamped'])))
+            d['m'] = int(rng.integers(4, 7)); d['n'] = int(rng.integers(4, 7))      # enough free terms behind the restrained edges
+        ass, ps, conn = build_assembly(ad)
+        for p in ps:
+            p.Nxx = -1.0; p.Nyy = float(rng.choice([0.0, -0.5, 0.3])); p.Nxy = float(rng.choice([0.0, 0.4]))
+        K = ass.calc_k0(silent=True)
+        O = ass.calc_kG0(silent=True) if want == 'kG0' else ass.calc_kM(silent=True)
+        return K, O, {'src': 'assembly', 'assembly': ad}
+    d = bay_desc(rng, mmax=6, nstiff=(0, 2), fl=flags(rng, style=str(rng.choice(['ss', 'clamped']))))
+    d['m'] = max(d['m'], 4); d['n'] = max(d['n'], 4)
+    bay = build_bay(d)
+    for p in bay.panels:
+        p.Nxx = -1.0
+    K = bay.calc_k0(silent=True)
+    O = bay.calc_kG0(silent=True) if want == 'kG0' else bay.calc_kM(silent=True)
+    return K, O, {'src': 'bay', 'bay': d}
